@@ -79,6 +79,10 @@ CLAIMED = {
   text="Deductive proof by structural induction over the annotation tree, one level per contract, with the argument validators as arbitrary pure partial functions (induction hypothesis): each validator closure of state/validation.py accepts exactly the values that conform to its shape (Any, None, class/protocol/enum by isinstance, Literal by same-type equality, Callable, Sequence / variadic tuple as non-str sequences, fixed tuple with exact length, Set/frozenset, Mapping, Union by first conforming alternative) and otherwise raises an Exception; accepted containers keep length, order, key association (nothing added, dropped, split or re-keyed) for sequences/sets/mappings of any size; attribute_validator selects the conversion prescribed for each of the 28 vocabulary origins, State/Protocol/Enum subclasses, and rejects anything else with TypeError; StateAttribute.validated substitutes the default for MISSING; State.__init__ (loop invariant over a dict of any size) stores validator(argument-or-default) for every attribute and fails iff some value does not conform.",
   note="The reflective annotation resolver (state/attributes.py, StateMeta.__new__, __class_getitem__) is outside the verifier's reach: it is covered only by the BOUNDED native sweep of harness/C05_replay.py (annotation terms to depth 3, 262 terms, conforming and broken values) which is never counted as proved. Trusted: PEP 634 patterns, T-COLL, nominal isinstance, validators raise only Exceptions.",
   ref="DESIGN.md 4 (C05), 3.11"),
+ "C18": dict(
+  text="Deductive proof of the call shapes and outcome forwarding on every path of the real code: both executor paths of _ExecutorWrapper (function and bound method) hand run_in_executor the configured executor, <copy_context() taken at the call>.run and partial(function, [receiver,] *args, **kwargs), and return / raise exactly the function's outcome; __get__ binds the receiver to the method path; wrap_async returns async functions as is and otherwise forwards arguments and outcome; both traced wrappers open exactly one scope named after the function, record the arguments before and the outcome after the call, return the value / re-raise the same exception object, and no tracing step raises; mimic_function.mimic and _mimic_async (loop invariant over the attribute names, symbolic attribute map) leave __name__, __doc__ equal to the original's and __wrapped__ identical to it; a syntactic audit checks that each of the seven decorators passes its wrapper through mimic.",
+  note="Trusted: T-EXEC (run_in_executor runs f(*a) on another thread and delivers result or exception - 'off the loop thread, the loop keeps serving tasks' is exactly this assumption), T-CV (a copied Context is private: nothing leaks back), functools.partial. Callee contracts: sync scope enter/exit never raise (C02), ctx.record never raises (C10), ArgumentsTrace.of/ResultTrace.of never raise (instance of C05; cross-checked natively).",
+  ref="DESIGN.md 4 (C18)"),
 }
 
 ALL = [f"C{i:02d}" for i in range(1, 21)]
